@@ -147,7 +147,7 @@ Proof. intro H. unfold run_end. assert (E : Nat.ltb max_failures (num_failed ds)
 (* ------------------------------------------------------------------ *)
 (* (3) asynchronous Hyperband + GP searcher: frame of on_trial_error     *)
 (* ------------------------------------------------------------------ *)
-Definition cfg0 : config := {| rung_levels := []; max_t := 1; pol := Rungs; myopic := false; sty := SearcherData.Stopping; maximize := false |}.
+Definition cfg0 : config := {| rung_levels := []; max_t := 1; pol := Rungs; myopic := false; sty := SearcherData.Stopping; maximize := false; reward_const := 1 |}.
 Lemma async_frame st t t' : t' <> t ->
   let st' := on_trial_error st t in
   find t' (trials st') = find t' (trials st) /\
